@@ -246,13 +246,12 @@ fn extract_files_with_metadata(
         }
 
         // Extract file data
-        let data = match archive.read_file(&file.name) {
-            Ok(data) => data,
-            Err(e) => {
-                log::warn!("Failed to read file {}: {}", file.name, e);
-                continue;
-            }
-        };
+        // A listed file that cannot be read is not one the options exclude: leaving it out
+        // would produce an archive that silently lacks it
+        let data = archive.read_file(&file.name).map_err(|e| {
+            log::warn!("Failed to read file {}: {}", file.name, e);
+            e
+        })?;
 
         // Extract metadata
         let file_meta = FileMetadata {
